@@ -155,6 +155,34 @@ def body_merge(env):
             env.holds('input boundary %d survives the merge (to rounding)' % j, near)
 
 
+def body_reactor_req(env):
+    """Set-up glue of a real Reactor (enumeration of cores; no symbolic dimension): the step the mesh is built with respects
+    *every* stability requirement -- each assembly's and the inter-assembly gap's, recomputed here with the real
+    calculate_min_dz routines on the finished objects -- and a user step above the limit is not honoured."""
+    import dassh
+    from harness import symcore as SC
+    r = SC.build_reactor(env.params['layout'], gap_model=env.params['gap_model'], bypass_fraction=env.params['bypass'],
+                         setup_lines=env.params.get('setup', ()))
+    reqs = []
+    t_out = dassh.utils.Q_equals_mCdT(r.total_power, r.inlet_temp, r.core.gap_coolant, mfr=r.flow_rate)
+    g, _ = dassh.core.calculate_min_dz(r.core, r.inlet_temp, t_out)
+    if g is not None:
+        reqs.append(('inter-assembly gap', float(g)))
+    for i, v in enumerate(r.min_dz['dz'][:len(r.assemblies)]):
+        reqs.append(('assembly/region entry %d' % i, float(v)))
+    if env.params['gap_model'] == 'flow':
+        env.holds('the gap model with flowing coolant has a step requirement', g is not None)
+    lim = min(v for _, v in reqs)
+    if env.params.get('gap_limiting'):
+        env.holds('fixture: the gap requirement is the limiting one', g is not None and float(g) == lim)
+    for nm, v in reqs:
+        env.holds('step used to build the mesh <= requirement of %s' % nm, float(r.req_dz) <= v, key='mesh_step_exceeds_requirement')
+    env.holds('every step of the mesh <= every stability requirement', float(np.max(r.dz)) <= lim * (1 + 1e-12), key='mesh_step_exceeds_requirement')
+    user = r._options.get('axial_mesh_size')
+    if user is not None and user > lim:
+        env.holds('user step above the limit not honoured', float(np.max(r.dz)) < user, key='mesh_step_exceeds_requirement')
+
+
 def instances(tier):
     inst = []
     for k in ((1, 2) if tier == 'quick' else (1, 2, 3)):
@@ -169,6 +197,11 @@ def instances(tier):
                          params={'nb': nb, 'nsteps': ns}, max_paths=6000, max_depth=200))
     for n in ((2, 3, 4) if tier == 'quick' else (2, 3, 4, 5)):
         inst.append(dict(label='merge[n=%d]' % n, body=body_merge, params={'n': n}, max_paths=3000))
+    for layout, gm, bf, setup in (('two-a2-a3', 'flow', 0.05, ()), ('two-a2-a3', 'flow', 0.0005, ()), ('seven-mixed', 'flow', 0.001, ()),
+                                  ('three-a3-dd-u6', 'flow', 0.0005, ('axial_mesh_size = 0.004',)), ('two-a2-a3', 'no_flow', 0.05, ()),
+                                  ('two-a2-a3', 'duct_average', 0.05, ())):
+        inst.append(dict(label='reactor-requirement[%s,gap=%s,bypass=%g%s]' % (layout, gm, bf, ',user step' if setup else ''), body=body_reactor_req,
+                         params={'layout': layout, 'gap_model': gm, 'bypass': bf, 'setup': setup, 'gap_limiting': gm == 'flow' and bf < 0.01}, check_vacuity=False))
     return inst
 
 
